@@ -192,9 +192,24 @@ pub enum Op {
     // parsing
     Base64(usize, bool),
     FetchBytes(usize, usize),
+    /// an addition in an architecture that configures a chip the relation never uses
+    /// (0 sha256, 1 sha512, 2 base64, 3 keccak, 4 blake2b, 5 secp256k1, 6 jubjub + poseidon)
+    Unused(u8),
 }
 
 impl Op {
+    /// `ZkStdLib.used_*` flags the operation sets (sha256 sha512 base64 automaton keccak/sha3
+    /// blake2b): a function of the operation alone.
+    pub fn used_tables(&self) -> [bool; 6] {
+        match self {
+            Op::Sha256(_) => [true, false, false, false, false, false],
+            Op::Sha512(_) => [false, true, false, false, false, false],
+            Op::Base64(..) => [false, false, true, false, false, false],
+            Op::Sha3(_) | Op::Keccak(_) => [false, false, false, false, true, false],
+            Op::Blake2b(_) => [false, false, false, false, false, true],
+            _ => [false; 6],
+        }
+    }
     pub fn name(&self) -> String {
         format!("{self:?}").replace(' ', "")
     }
@@ -299,6 +314,13 @@ impl Relation for OpRel {
             Op::BigAdd(_) | Op::BigSub(_) | Op::BigMul(_) | Op::BigDivRem(_) | Op::BigModExp(..) | Op::BigLt(_)
             | Op::BigToBytes(_) | Op::BigPi(_) => ZkStdLibArch { nr_pow2range_cols: 4, ..d },
             Op::Base64(..) => ZkStdLibArch { base64: true, ..d },
+            Op::Unused(0) => ZkStdLibArch { sha2_256: true, ..d },
+            Op::Unused(1) => ZkStdLibArch { sha2_512: true, ..d },
+            Op::Unused(2) => ZkStdLibArch { base64: true, ..d },
+            Op::Unused(3) => ZkStdLibArch { keccak_256: true, ..d },
+            Op::Unused(4) => ZkStdLibArch { blake2b: true, ..d },
+            Op::Unused(5) => ZkStdLibArch { secp256k1: true, nr_pow2range_cols: 4, ..d },
+            Op::Unused(_) => ZkStdLibArch { jubjub: true, poseidon: true, ..d },
             _ => d,
         }
     }
@@ -327,7 +349,7 @@ impl Relation for OpRel {
         let outb = |l: &mut _, x: &AB| -> Result<(), Error> { s.constrain_as_public_input(l, x) };
         let outy = |l: &mut _, x: &AY| -> Result<(), Error> { s.constrain_as_public_input(l, x) };
         match &self.op {
-            Op::Add => {
+            Op::Add | Op::Unused(_) => {
                 let (x, y) = (nat(l, 0)?, nat(l, 1)?);
                 let r = s.add(l, &x, &y)?;
                 out(l, &r)
@@ -861,7 +883,7 @@ pub fn classes(op: &Op, rng: &mut ChaCha8Rng, nrand: usize) -> Vec<Class> {
     let bf = boundary_f();
     match op {
         // binary natives: pairs steering zero / equal / opposite / carry
-        Op::Add | Op::Sub | Op::Mul | Op::IsEqual | Op::AssertNotEqual | Op::Div => {
+        Op::Add | Op::Sub | Op::Mul | Op::IsEqual | Op::AssertNotEqual | Op::Div | Op::Unused(_) => {
             for (n, x) in &bf {
                 out.push(cls(&format!("x={n},y=x"), W::f(&[*x, *x])));
                 out.push(cls(&format!("x={n},y=-x"), W::f(&[*x, -*x])));
@@ -1475,6 +1497,9 @@ pub fn all_ops(tier: &str) -> Vec<Op> {
         Op::Base64(8, true),
         Op::Base64(6, false),
         Op::FetchBytes(40, 5),
+        Op::Unused(0),
+        Op::Unused(2),
+        Op::Unused(6),
     ]);
     if tier != "quick" {
         v.extend([
@@ -1513,6 +1538,10 @@ pub fn all_ops(tier: &str) -> Vec<Op> {
             Op::VecTrim(8),
             Op::Base64(64, true),
             Op::FetchBytes(100, 31),
+            Op::Unused(1),
+            Op::Unused(3),
+            Op::Unused(4),
+            Op::Unused(5),
             Op::Pow(255),
             Op::LinComb(17),
             Op::ToLeBits(Some(128), true),
